@@ -25,6 +25,9 @@ pub enum GitOp {
     StageAll,
     Unstage { path: String },
     Commit { all: bool },
+    /// git commit --amend: the new commit replaces HEAD, so the previous HEAD (perhaps the checkpoint's commit) is
+    /// no longer an ancestor of HEAD; trees and therefore every expected change set are as after a plain commit
+    Amend { all: bool },
     WriteIgnored { path: String },
     /// create n files with non-ASCII names in one directory (a listing longer than one pipe buffer)
     Bulk { dir: String, n: usize, tag: usize },
@@ -170,7 +173,7 @@ impl RGit {
                     self.index.insert(path.clone(), content);
                 }
             }
-            GitOp::Commit { all } => {
+            GitOp::Commit { all } | GitOp::Amend { all } => {
                 if *all {
                     let tracked: Vec<String> = self.index.keys().cloned().collect();
                     for p in tracked {
@@ -532,6 +535,13 @@ pub fn exec_repo_op(w: &mut World, op: &GitOp, model_after: &RGit) -> Result<(),
                 w.git(&["commit", "-q", "--allow-empty", "-a", "-m", "c"]).map(|_| ())
             } else {
                 w.git(&["commit", "-q", "--allow-empty", "-m", "c"]).map(|_| ())
+            }
+        }
+        GitOp::Amend { all } => {
+            if *all {
+                w.git(&["commit", "-q", "--amend", "--allow-empty", "-a", "-m", "amended"]).map(|_| ())
+            } else {
+                w.git(&["commit", "-q", "--amend", "--allow-empty", "-m", "amended"]).map(|_| ())
             }
         }
         _ => Ok(()),
